@@ -1,5 +1,5 @@
 """Shared extraction helpers: the real AST / value type definitions, copied from /repo on every run."""
-from vx.unit import Sub, ReSub
+from vx.unit import Sub, ReSub, ClosureDesugar
 
 V = 'value/src/lib.rs'
 EX = 'parser/src/types/executable.rs'
@@ -15,10 +15,10 @@ impl<V> NameMap<V> {
     pub uninterp spec fn view(&self) -> Map<Seq<char>, V>;
     #[verifier::external_body]
     pub fn get(&self, k: &Name) -> (r: Option<&V>)
-        ensures match r { Some(v) => self.view().contains_key(k.text()) && *v == self.view()[k.text()], None => !self.view().contains_key(k.text()) }
+        ensures match r { Some(v) => self.view().contains_key(k@) && *v == self.view()[k@], None => !self.view().contains_key(k@) }
     { unimplemented!() }
     #[verifier::external_body]
-    pub fn contains_key(&self, k: &Name) -> (r: bool) ensures r == self.view().contains_key(k.text()) { unimplemented!() }
+    pub fn contains_key(&self, k: &Name) -> (r: bool) ensures r == self.view().contains_key(k@) { unimplemented!() }
 }
 // an ordered map (IndexMap): same lookup contract plus an entry sequence in insertion order
 #[verifier::external_body]
@@ -63,3 +63,42 @@ def ast_types(u):
     for s in ['struct OperationDefinition', 'struct VariableDefinition', 'struct SelectionSet', 'enum Selection', 'struct Field',
               'struct FragmentSpread', 'struct InlineFragment', 'struct FragmentDefinition', 'struct TypeCondition']:
         u.extract_type(EX, [s])
+    # real accessor, extracted and under contract (so that code switching between name and alias is decided, not rejected)
+    u.extract_fn(EX, ['impl Field', 'fn response_key'], wrap_impl='Field', canary=False,
+                 ensures=['*r == (match self.alias { Some(a) => a, None => self.name })'])
+
+R = 'src/registry/mod.rs'
+
+REGISTRY_TYPES = r'''
+pub struct MetaField { pub name: String, pub ty: String, pub cache_control: CacheControl }
+pub enum MetaType {
+    Scalar { name: String },
+    Object { name: String, fields: StrMap<MetaField>, cache_control: CacheControl },
+    Interface { name: String, fields: StrMap<MetaField>, possible_types: StrSet },
+    Union { name: String, possible_types: StrSet },
+    Enum { name: String },
+    InputObject { name: String },
+}
+'''
+
+
+def registry_types(u):
+    """Field-subset shims of MetaType / MetaField + conformance check against the real definitions."""
+    u.prelude('registry_shim')
+    u.extract_type('src/registry/cache_control.rs', ['struct CacheControl'], keep_derives=['Clone', 'Copy'])
+    u.trusted(REGISTRY_TYPES, 'MetaType / MetaField field-subset shims')
+    u.shim_conformance(R, ['struct MetaField'], [('name', 'String'), ('ty', 'String'), ('cache_control', 'CacheControl')])
+    u.shim_conformance(R, ['enum MetaType'], [('name', 'String')], variant='Scalar')
+    u.shim_conformance(R, ['enum MetaType'], [('name', 'String'), ('fields', 'IndexMap<String, MetaField>'), ('cache_control', 'CacheControl')], variant='Object')
+    u.shim_conformance(R, ['enum MetaType'], [('name', 'String'), ('fields', 'IndexMap<String, MetaField>'), ('possible_types', 'IndexSet<String>')], variant='Interface')
+    u.shim_conformance(R, ['enum MetaType'], [('name', 'String'), ('possible_types', 'IndexSet<String>')], variant='Union')
+    u.shim_conformance(R, ['enum MetaType'], [('name', 'String')], variant='Enum')
+    u.shim_conformance(R, ['enum MetaType'], [('name', 'String')], variant='InputObject')
+    u.assume('MetaType / MetaField are field-subset shims of the real registry types (conformance-checked each run); IndexMap<String,_> / IndexSet<String> represented by lookup-only shims')
+    # the two real accessors, extracted and put under contract
+    u.extract_fn(R, ['impl MetaType', 'fn fields'], wrap_impl='MetaType',
+                 sig_rewrites=[ReSub(r'IndexMap<String, MetaField>', 'StrMap<MetaField>')],
+                 ensures=['match *self { MetaType::Object { fields, .. } => r == Some(&fields), MetaType::Interface { fields, .. } => r == Some(&fields), _ => r is None }'])
+    u.extract_fn(R, ['impl MetaType', 'fn field_by_name'], wrap_impl='MetaType',
+                 rewrites=[ClosureDesugar('and_then')],
+                 ensures=['match *self { MetaType::Object { fields, .. } | MetaType::Interface { fields, .. } => (match r { Some(f) => fields.view().contains_key(name@) && *f == fields.view()[name@], None => !fields.view().contains_key(name@) }), _ => r is None }'])
